@@ -12,6 +12,7 @@ import rules_subject as RJ
 import rules_x as RX
 import rules_count as RCNT
 import rules_opsem as ROPS
+import rules_arity as RAR
 
 COMBINATORS = ("merge", "flat_map", "concat", "zip", "combine_latest", "amb", "take_until",
                "skip_until", "sample", "switch_on_next", "sequence_equal")
@@ -96,6 +97,7 @@ def rules_for(pid):
             ("X-blocking-acq", _xacq("observer::", "internals::function_wrapper::"), 5),
             ("CLONE-SHARES", _xclone(2, "observer::", "internals::function_wrapper::"), 2),
             ("F-slot-truth", lambda c: RO.f_slot_truth(c.P, c.E), 4),
+            ("INIT", lambda c: RX.init_rule(c.P, c.E, ("observer::",)), 2),
         ],
         "C02": [
             ("H-complete", lambda c: RH.h_complete(c.P, c.E, c.H, scope_c02), 14),
@@ -126,6 +128,7 @@ def rules_for(pid):
             ("ZIP", lambda c: ROPS.zip_rule(c.P, c.E, c.H), 3),
             ("H-next-forward", lambda c: ROPS.forward_rule(c.P, c.E, c.H), 8),
             ("SUB-inputs", lambda c: RX.sub_inputs(c.P, c.E, c.H), 40),
+            ("ARITY", lambda c: RAR.arity_rule(c.P, c.E, c.H), 3),
         ],
         "C04": [
             ("H-error", lambda c: RH.h_error(c.P, c.E, c.H), 26),
@@ -192,6 +195,7 @@ def rules_for(pid):
             ("Q", lambda c: RQ.q_rules(c.P, c.E), 10),
             ("X-blocking-acq", _xacq("schedulers::"), 4),
             ("CLONE-SHARES", _xclone(2, "schedulers::"), 2),
+            ("INIT", lambda c: RX.init_rule(c.P, c.E, ("schedulers::",)), 1),
         ],
         "C17": [
             ("K-self-cycle", lambda c: RC17.k_self_cycle(c.P, c.E), 5),
@@ -211,6 +215,7 @@ def rules_for(pid):
             # the vector the future yields is final: to_vec's buffer grows only in the next callback (W4), and the observer it
             # subscribes with runs no callback after a terminal
             ("O-typestate", lambda c: RO.o_typestate(c.P, c.E, ("callback after terminal",)), 1),
+            ("INIT", lambda c: RX.init_rule(c.P, c.E, ("operators::to_vec::",)), 3),
         ],
         "C09": [
             ("HANDOFF", lambda c: RS.handoff_rules(c.P, c.E, c.H), 3),
@@ -237,6 +242,7 @@ def rules_for(pid):
             ("CLONE-SHARES", _xclone(3, "subjects::"), 3),
             ("SUBJ", lambda c: ROPS.subjects_rule(c.P, c.E, c.H), 8),
             ("L1-subjects", lambda c: _only_subjects(RL.l1_reentrancy(c.P, c.E, c.H)), 1),
+            ("INIT", lambda c: RX.init_rule(c.P, c.E, ("subjects::",)), 2),
         ],
         "C11": [
             ("D", lambda c: RJ.d_rules(c.P, c.E, c.H), 3),
@@ -246,6 +252,7 @@ def rules_for(pid):
             ("AMB", lambda c: ROPS.amb_rule(c.P, c.E, c.H), 1),
             # "exactly one complete": every input's completion must reach the remove-and-test (or start the successor)
             ("H-complete", lambda c: RH.h_complete(c.P, c.E, c.H, scope_c11), 5),
+            ("ARITY", lambda c: RAR.arity_rule(c.P, c.E, c.H), 3),
         ],
         "C12": [
             ("J", lambda c: _only(RJ.j_rules(c.P, c.E), ("J1", "J2", "J3", "J6", "J7")), 5),
@@ -253,6 +260,7 @@ def rules_for(pid):
             ("K-hot-state", lambda c: RX.k_hot_state(c.P, c.E, c.H), 3),
             ("X-blocking-acq", _xacq("subjects::"), 15),
             ("CLONE-SHARES", _xclone(3, "subjects::"), 3),
+            ("INIT", lambda c: RX.init_rule(c.P, c.E, ("subjects::",)), 2),
         ],
         "C13": [
             ("P", lambda c: RJ.p_rules(c.P, c.E), 6),
@@ -263,6 +271,7 @@ def rules_for(pid):
             ("LATE-HANDLE", lambda c: RJ.late_handle(c.P, c.E), 2),
             # the count-down hooks of ref_count/replay hear of a leaving subscriber only through Subscription::unsubscribe
             ("SUB", lambda c: RO.sub_rules(c.P, c.E), 3),
+            ("INIT", lambda c: RX.init_rule(c.P, c.E, ("operators::ref_count::", "operators::replay::")), 2),
         ],
         "C15": [
             ("T1", lambda c: RS.t1_abort_wired(c.P, c.E), 3),
@@ -273,6 +282,7 @@ def rules_for(pid):
             ("S-finalize-after-terminal", lambda c: RO.s_finalize_after_terminal(c.P, c.E), 3),
             ("X-blocking-acq", _xacq("schedulers::"), 4),
             ("S-wiring", lambda c: RO.s_wiring(c.P, c.E), 3),
+            ("INIT", lambda c: RX.init_rule(c.P, c.E, ("schedulers::", "internals::stream_controller::")), 2),
         ],
         "C19": [
             ("A19b", lambda c: RJ.a19b(c.P, c.E), 3),
@@ -284,6 +294,7 @@ def rules_for(pid):
             ("F-slot-truth", lambda c: RO.f_slot_truth(c.P, c.E), 4),
             # the arbitration cells (three slots + the terminal flag) are ONE set per subscriber: every clone shares them
             ("CLONE-SHARES", _xclone(2, "observer::", "internals::function_wrapper::"), 2),
+            ("INIT", lambda c: RX.init_rule(c.P, c.E, ("observer::",)), 2),
         ],
         "C14": [
             ("K-fresh-state", lambda c: RK.k_fresh_state(c.P, c.E), 28),
